@@ -11,7 +11,7 @@ def known(meta, msg):
 
 
 def main(rep):
-    wk.standard_main(rep, fault=True, fault_monitors=["fault_reported", "recovery", "no_partial", "position_kept", "store_immutable", "queue_form"],
+    wk.standard_main(rep, fault=True, fault_monitors=["fault_reported", "recovery", "no_partial", "position_kept", "position_not_ahead", "store_immutable", "queue_form"],
                      known=known,
                      rule=("one failing system call at a time: every call index of the implementation's own log of the operation under test in each scenario "
                            "family x plausible errnos of that call (open: EACCES ENOSPC EMFILE EIO ENOENT; mkdir: EACCES ENOSPC; sendfile/write: EIO ENOSPC; "
